@@ -329,7 +329,14 @@ def part_pattern_sequences(res, rng, n):
                 i = rng.randrange(ncell)
                 c = rcell()
                 n_ = pat.data[i // tracks][i % tracks]
-                n_.raw_data = c if rng.random() < 0.6 else bytearray(c)
+                if rng.random() < 0.6:
+                    n_.raw_data = c
+                else:
+                    # one scratch buffer, filled for this cell and used again for something else right afterwards
+                    scratch = bytearray(c)
+                    n_.raw_data = scratch if rng.random() < 0.7 else memoryview(scratch)
+                    scratch[:] = rcell()
+                    res.count("cells_set_from_a_reused_buffer")
                 model[i] = c
             elif op == "bulk":
                 c = rcell()
